@@ -178,6 +178,83 @@ func lookupOrZero(m map[string]int, k string) (int, error) {
 	return lookup(m, k)
 }
 
+// result-less helpers used in defer and go statements: arguments are evaluated at the statement
+func logDone(w *strings.Builder, what string, n int) {
+	if n < 0 {
+		fmt.Fprintln(w, "done (negative):", what)
+		return
+	}
+	fmt.Fprintln(w, "done:", what, n)
+}
+
+func sendSquare(ch chan<- int, n int) {
+	if n == 0 {
+		ch <- -1
+		return
+	}
+	ch <- n * n
+}
+
+// methods of a generic type calling each other: inlined when the receiver's type arguments are the
+// caller's own type parameters under the same names; the calls from run (instantiated) stay
+type cache[K comparable, V any] struct {
+	m    map[K]V
+	hits int
+}
+
+func (c *cache[K, V]) lookup(k K) (V, bool) {
+	v, ok := c.m[k]
+	if ok {
+		c.hits++
+	}
+	return v, ok
+}
+
+func (c *cache[K, V]) put(k K, v V) {
+	if c.m == nil {
+		c.m = map[K]V{}
+	}
+	c.m[k] = v
+}
+
+func (c *cache[K, V]) fresh() *cache[K, V] {
+	return &cache[K, V]{m: map[K]V{}, hits: c.hits}
+}
+
+func (c *cache[K, V]) getOr(k K, mk func() V) V {
+	if v, ok := c.lookup(k); ok {
+		return v
+	}
+	v := mk()
+	c.put(k, v)
+	d := c.fresh()
+	d.put(k, v)
+	return v
+}
+
+// a local built from a literal and returned: known not to be nil
+func mkNode(name string, n int) *node {
+	nd := &node{name: name, n: n}
+	if n < 0 {
+		return nil
+	}
+	nd.n++
+	return nd
+}
+
+func deferred(w *strings.Builder) {
+	n := 1
+	defer logDone(w, "first", n)
+	n = -2
+	defer logDone(w, "second", n)
+	n = note("d")
+	ch := make(chan int)
+	go sendSquare(ch, n%7)
+	fmt.Fprintln(w, "square:", <-ch)
+	go sendSquare(ch, 0)
+	fmt.Fprintln(w, "square:", <-ch)
+}
+
 func run(w *strings.Builder) error {
 	m := map[string]int{"a": 1, "b": 2}
 	tree := &node{name: "root", n: 1, kids: []*node{{name: "keep", n: 1}, {name: "_x", n: 5}, {name: "y", n: 3, kids: []*node{{name: "z", n: 2}}}}}
@@ -329,6 +406,18 @@ func run(w *strings.Builder) error {
 	fmt.Fprintln(w, total(tree), depth(tree))
 	wv, werr := weightOrErr(tree.kids[1])
 	fmt.Fprintln(w, wv, werr)
+	// defer and go statements
+	deferred(w)
+	for _, k := range []int{2, -1} {
+		if nd := mkNode("q", k); nd != nil {
+			fmt.Fprintln(w, "node", nd.name, nd.n)
+		} else {
+			fmt.Fprintln(w, "no node for", k)
+		}
+	}
+	// generic receiver
+	var gc cache[string, int]
+	fmt.Fprintln(w, gc.getOr("a", func() int { return note("mk1") }), gc.getOr("a", func() int { return note("mk2") }), gc.hits, len(gc.m))
 	// not inlined
 	err := guarded(func() { panic("boom") })
 	fmt.Fprintln(w, err)
